@@ -636,7 +636,6 @@ PPL::Polyhedron::contains_integer_point() const {
   mip.add_to_integer_space_dimensions(Variables_Set(Variable(0),
                                                     Variable(space_dim-1)));
   PPL_DIRTY_TEMP_COEFFICIENT(homogeneous_gcd);
-  PPL_DIRTY_TEMP_COEFFICIENT(gcd);
   PPL_DIRTY_TEMP(mpq_class, rational_inhomogeneous);
   PPL_DIRTY_TEMP_COEFFICIENT(tightened_inhomogeneous);
   for (Constraint_System::const_iterator cs_i = cs.begin(),
@@ -657,14 +656,22 @@ PPL::Polyhedron::contains_integer_point() const {
       }
       Linear_Expression le(c.expression());
       if (homogeneous_gcd != 1) {
+        // The homogeneous part is divided exactly; the inhomogeneous term,
+        // which need not be a multiple of `homogeneous_gcd', is divided
+        // rounding upwards.
+        le -= inhomogeneous;
         le /= homogeneous_gcd;
+        assign_r(rational_inhomogeneous.get_num(),
+                 inhomogeneous, ROUND_NOT_NEEDED);
+        assign_r(rational_inhomogeneous.get_den(),
+                 homogeneous_gcd, ROUND_NOT_NEEDED);
+        rational_inhomogeneous.canonicalize();
+        assign_r(tightened_inhomogeneous,
+                 rational_inhomogeneous, ROUND_UP);
+        le += tightened_inhomogeneous;
       }
-      // Further tighten the constraint if the inhomogeneous term
-      // was integer, i.e., if `homogeneous_gcd' divides `inhomogeneous'.
-      gcd_assign(gcd, homogeneous_gcd, inhomogeneous);
-      if (gcd == homogeneous_gcd) {
-        le -= 1;
-      }
+      // On integer points, `le > 0' is equivalent to `le - 1 >= 0'.
+      le -= 1;
       mip.add_constraint(le >= 0);
     }
     else {
@@ -697,6 +704,7 @@ PPL::Polyhedron::contains_integer_point() const {
 #ifndef NDEBUG
           // `homogeneous_gcd' does not divide `inhomogeneous'.
           // FIXME: add a divisibility test for Coefficient.
+          PPL_DIRTY_TEMP_COEFFICIENT(gcd);
           gcd_assign(gcd, homogeneous_gcd, inhomogeneous);
           PPL_ASSERT(gcd == 1);
 #endif
